@@ -13,4 +13,5 @@ def run(repo, res, tier):
     hookrules.rule_v1(repo, res)
     hookrules.rule_v2(repo, res)
     hookrules.rule_v3(repo, res)
+    hookrules.rule_no_hardcoded_containers(repo, res)
     apirules.rule_f1(repo, res, "new")
